@@ -195,7 +195,7 @@ def run(ctx):
             ctx.function_under_contract(MOD + ":" + q, mod.segment(node))
     run_deductive(ctx)
     rng = random.Random(ctx.seed)
-    rounds = 120 if ctx.tier == "quick" else 1500
+    rounds = 300 if ctx.tier == "quick" else 2000
     t = Tally(ctx, "B-19 real file:// mirrors: convergence, hash failures, unusable indexes, injected write / rename faults",
               "seeded histories of 1-4 versions (0-8 lines) published as gz + index (SHA1, SHA256 or both families) + ed patches from an independent differ; local "
               "copy at every v_i / current / foreign / absent; index ok / missing / empty / garbage / without Current / wrong Current / "
